@@ -54,15 +54,19 @@ deriving Repr, DecidableEq
 /-- `newFromConfig` with `nStores` loadable prefixes; `minCfg = none` when `minWritesForSuccess` is
 absent.  `none` = the constructor returns an error.  (Since the `fix:` commit of F-C12-1 a value
 outside `0..len(backends)` is rejected; `0` means "all".) -/
+def effMin (n : Nat) (m : Int) : Nat := if m = 0 then n else m.toNat
+
+def effReads (backends readBackends : List Nat) : List Nat :=
+  if readBackends.isEmpty then backends else readBackends
+
+/-- the range check added by the fix -/
+def minOk (n : Nat) (m : Int) : Bool := decide (0 ≤ m) && decide (m ≤ (n : Int))
+
 def newFromConfig (nStores : Nat) (backends readBackends : List Nat) (minCfg : Option Int) : Option Cfg :=
-  let n := backends.length
-  let m : Int := minCfg.getD n
-  if n = 0 then none
-  else if m < 0 ∨ (n : Int) < m then none
-  else
-    let min := if m = 0 then n else m.toNat
-    let reads := if readBackends.isEmpty then backends else readBackends
-    if backends.all (· < nStores) && reads.all (· < nStores) then some ⟨backends, reads, min⟩ else none
+  if backends.isEmpty then none
+  else if !minOk backends.length (minCfg.getD backends.length) then none
+  else if !(backends.all (· < nStores) && (effReads backends readBackends).all (· < nStores)) then none
+  else some ⟨backends, effReads backends readBackends, effMin backends.length (minCfg.getD backends.length)⟩
 
 /-- the constructor as it was before the fix: any integer was accepted (`minOld` may be negative) -/
 def newFromConfigOld (nStores : Nat) (backends readBackends : List Nat) (minCfg : Option Int) :
